@@ -23,7 +23,7 @@ ASSUMPTIONS = [
     'get key-style mutators (remove/clear/wholesale replacement are used for both)',
     'check_on_set=True is declared explicitly so membership is always enforced',
 ]
-REQUIRED = {'mutations': 1000, 'probes_accept': 500, 'probes_reject': 500, 'invariant_evals': 1000, 'auto_appended': 50}
+REQUIRED = {'mutations': 1000, 'probes_accept': 500, 'probes_reject': 500, 'invariant_evals': 1000, 'auto_appended': 50, 'pops_of_missing_name_with_default': 35, 'updates_by_keywords_only': 80}
 
 _state = {}
 
@@ -384,8 +384,17 @@ def run_case(idx, rng, P, rep):
                 trace.append((op, dict(upd)))
                 if op == 'update':
                     o.update(dict(upd) if rng.random() < 0.5 else list(upd.items()))
-                elif rng.random() < 0.5:
+                elif rng.random() < 0.33:
                     o.update({}, **upd)
+                elif rng.random() < 0.5:
+                    # (keywords only, as a dictionary takes them)
+                    rep.count('updates_by_keywords_only')
+                    try:
+                        o.update(**upd)
+                    except TypeError as e_:
+                        # (raised at the call itself: the traceback has no frame of the library)
+                        viol('raised', f'update(**names) raised {type(e_).__name__}: {e_}', 'update-keywords-only')
+                        break
                 else:
                     ks = list(upd)
                     cut = rng.randint(0, len(ks))
@@ -399,6 +408,21 @@ def run_case(idx, rng, P, rep):
                     model_names[k] = x
             elif op == 'pop_key':
                 if not model_names:
+                    continue
+                if rng.random() < 0.2:
+                    # a name that is not there, with a default: the default comes back, nothing is removed, nobody is told
+                    dflt = fresh(rng)
+                    trace.append((op, 'missing-name', dflt))
+                    got = o.pop(f'nosuch{step}', dflt)
+                    rep.count('pops_of_missing_name_with_default')
+                    mutated = False
+                    if got is not dflt:
+                        viol('return-value', f'pop(<missing name>, default) returned {got!r}, not the default', 'pop-key-missing')
+                    if len(log) != before_log:
+                        viol('watcher-count', 'objects watcher notified by pop(<missing name>, default), which removes nothing', 'pop-key-missing')
+                        del log[before_log:]
+                    ops_done.append(op)
+                    verify('pop-key-missing')
                     continue
                 k = rng.choice(list(model_names))
                 trace.append((op, k))
